@@ -61,7 +61,7 @@ theorem decode_word (syn : Bool) (d : UInt8) (o : UInt64) (hd : d < 8) (ho : o %
     (hlt : o < 0x800000000) :
     decodeEntryData ((o >>> 3).toUInt32 ||| (d.toUInt32 <<< 1) ||| (if syn then 1 else 0)) =
       { isSynonym := syn, dataFileId := d, offset := o } := by
-  cases syn <;> simp only [decodeEntryData, FileEntryData.mk.injEq] <;> refine ⟨?_, ?_, ?_⟩ <;> bv_decide
+  cases syn <;> simp only [decodeEntryData, FileEntryData.mk.injEq] <;> refine ⟨?_, ?_, ?_⟩ <;> bv_decide (timeout := 300)
 
 theorem decode_entryWord (e : Entry) (h : e.wf = true) :
     decodeEntryData (entryWord e) = { isSynonym := e.synonym, dataFileId := e.datId, offset := e.offset } := by
